@@ -139,51 +139,53 @@ def run(chk, prog):
                    'restore_state_snapshot no longer moves the snapshot into Story::state as a whole', rs.loc(0))
 
     # ---- 3
-    def applies_patch_unless_saving(f, depth=0):
-        """Every return of f that is not under async_saving = true has passed apply_any_patch (directly, or through a
-        callee of the same impl that satisfies this itself)."""
-        def atom(desc):
-            return 'saving' if desc == ('field', 'Story::async_saving') else None
-        gf = GuardFlow(prog, f, atom, tracer=tr)
-        gf.run()
-        g = cfg(f)
-        ap = []
-        for bb, t in f.calls():
-            if callee_short(t) == 'StoryState::apply_any_patch':
-                ap.append(bb)
-            elif depth < 2:
-                h = prog.fns.get(callee(t))
-                if h is not None and h.crate == f.crate and h.self_adt == f.self_adt and h.p != f.p and not h.pub \
-                        and any(callee_short(t2) == 'StoryState::apply_any_patch' or 'apply_any_patch' in callee_short(t2)
-                                for _, t2 in h.calls()) and applies_patch_unless_saving(h, depth + 1)[0]:
-                    ap.append(bb)
-        seen = set()
-        stack = [(0, gf.entry)]
-        while stack:
-            b, fs = stack.pop()
-            if (b, fs) in seen:
-                continue
-            seen.add((b, fs))
-            d = dict(fs)
-            if b in g.returns and d.get('saving') is not True:
-                return False, ap
-            if b in ap:
-                continue
-            loc_ = dict(fs)
-            gf._apply_stmts(b, loc_)
-            for succ, ns in gf._out_edges(b, loc_):
-                stack.append((succ, frozenset(ns.items())))
-        return bool(ap), ap
     for name in ('Story::discard_snapshot', 'Story::restore_state_snapshot'):
         f = prog.fn(name)
         if not chk.anchor(R3, name, f):
             continue
-        ok_, ap = applies_patch_unless_saving(f)
+        ok_, ap = applies_patch_unless_saving(prog, tr, f)
         chk.decide(R3, chk.key(R3, name), ok_,
                    'apply_any_patch is reached on every path except under async_saving',
                    '%s can return without apply_any_patch although no background save is active: the look-ahead\'s '
                    'variable / visit-count changes are never merged into the committed state' % name, f.loc(0))
     patch_read_modify_write(chk, prog, tr)
+
+
+def applies_patch_unless_saving(prog, tr, f, depth=0):
+    """Every return of f that is not under async_saving = true has passed apply_any_patch (directly, or through a
+    callee of the same impl that satisfies this itself)."""
+    def atom(desc):
+        return 'saving' if desc == ('field', 'Story::async_saving') else None
+    gf = GuardFlow(prog, f, atom, tracer=tr)
+    gf.run()
+    g = cfg(f)
+    ap = []
+    for bb, t in f.calls():
+        if callee_short(t) == 'StoryState::apply_any_patch':
+            ap.append(bb)
+        elif depth < 2:
+            h = prog.fns.get(callee(t))
+            if h is not None and h.crate == f.crate and h.self_adt == f.self_adt and h.p != f.p and not h.pub \
+                    and any(callee_short(t2) == 'StoryState::apply_any_patch' or 'apply_any_patch' in callee_short(t2)
+                            for _, t2 in h.calls()) and applies_patch_unless_saving(prog, tr, h, depth + 1)[0]:
+                ap.append(bb)
+    seen = set()
+    stack = [(0, gf.entry)]
+    while stack:
+        b, fs = stack.pop()
+        if (b, fs) in seen:
+            continue
+        seen.add((b, fs))
+        d = dict(fs)
+        if b in g.returns and d.get('saving') is not True:
+            return False, ap
+        if b in ap:
+            continue
+        loc_ = dict(fs)
+        gf._apply_stmts(b, loc_)
+        for succ, ns in gf._out_edges(b, loc_):
+            stack.append((succ, frozenset(ns.items())))
+    return bool(ap), ap
 
 
 def check_conditional_copies(chk, prog, tr, cp, fields, R1):
